@@ -29,6 +29,13 @@ func ssidOf(i int) message.Ssid {
 	return message.Ssid{7, uint32(1000 + i), uint32(i % 3)}
 }
 
+// every storing process first stores one small message on the SAME channel (all other messages have a channel of
+// their own because of the reply-size cap): ids of one channel created by successive processes - within one second,
+// at the same position of each process' id counter - must still be distinct, or a restart overwrites history
+var sharedSsid = message.Ssid{7, 999, 1}
+
+const sharedBase = 100000
+
 func hashOf(b []byte) string {
 	h := sha1.Sum(b)
 	return hex.EncodeToString(h[:6])
@@ -61,6 +68,19 @@ func Child(args []string) {
 			r.ReadString('\n')
 			close(stop)
 		}()
+		{
+			payload := []byte(fmt.Sprintf("first message of the process that starts at %d", from))
+			m := message.New(sharedSsid, []byte("shared/"), payload)
+			m.TTL = 100000
+			fmt.Fprintf(out, "begin %d %s %s %s %d\n", sharedBase+from, hex.EncodeToString(m.ID), "shared/", hashOf(payload), m.TTL)
+			out.Flush()
+			if err := s.Store(m); err != nil {
+				fmt.Fprintf(out, "storefail %d %v\n", sharedBase+from, err)
+			} else {
+				fmt.Fprintf(out, "ack %d\n", sharedBase+from)
+			}
+			out.Flush()
+		}
 		if len(args) > 5 && args[5] == "load" {
 			// clean stop under load: Close runs while another goroutine is still storing; a Store that returns nil
 			// counts as acknowledged whenever it returns
@@ -134,8 +154,12 @@ func Child(args []string) {
 	case "query":
 		var upto int
 		fmt.Sscan(args[2], &upto)
-		for i := 1; i <= upto; i++ {
-			fr, err := s.Query(ssidOf(i), time.Unix(0, 0), time.Unix(0, 0), nil, 100)
+		for i := 0; i <= upto; i++ {
+			q := ssidOf(i)
+			if i == 0 {
+				q = sharedSsid
+			}
+			fr, err := s.Query(q, time.Unix(0, 0), time.Unix(0, 0), nil, 100)
 			if err != nil {
 				fmt.Fprintf(out, "queryfail %v\n", err)
 				continue
@@ -274,7 +298,7 @@ func Run(c *core.Ctx) {
 	c.Level = "fault_enumeration"
 	rng := rand.New(rand.NewSource(c.Seed))
 	c.ModelCheck("Durable", "CONSTANTS\n Msgs = {1,2,3}\nINIT DurInit\nNEXT DurNext\nINVARIANTS AckedSurvive NoPhantoms SeenIsHonest\n", tlc.Opts{Deadlock: false})
-	chains, cycles, per := 8, 3, 12
+	chains, cycles, per := 20, 3, 12
 	if !c.Quick() {
 		chains, cycles, per = 60, 4, 25
 	}
